@@ -375,6 +375,7 @@ static void run_gds(Out& out, Rng& g, const std::vector<IPoly>& polys, uint64_t 
 // ---------------------------------------------------------------- GDSII writer: outlines of non-simple paths (second and
 // third block of Cell::to_gds).  A FlexPath / RobustPath with an arc at a fine tolerance has an outline of several hundred
 // vertices; the file must hold pieces within the limit that cover that outline (snapped to the database grid).
+static int g_force_mode = 0;  // 1..3: vertex limit one below / equal to / one above the outline's vertex count
 static void run_gds_path(Out& out, Rng& g, uint64_t max_points, bool robust, const std::string& dir) {
     const double unit = 1.0, precision = 1.0 / 1024;  // dyadic grid, exact in a GDSII real
     const int64_t S = 1024;
@@ -383,6 +384,9 @@ static void run_gds_path(Out& out, Rng& g, uint64_t max_points, bool robust, con
     bool second_arc = g.coin();
     // fine tolerance: outline of several hundred vertices (fractured); coarse: a few dozen, often below the limit (written whole)
     double ptol = g.coin() ? 1e-4 : 0.05;
+    // the limit at the boundary: exactly one below / equal to / one above the outline's own vertex count (decided in the child, once
+    // the outline is known, and reported back)
+    int limit_mode = g_force_mode ? g_force_mode : (g.chance(35) ? 1 + (int)g.below(3) : 0);
     std::string fn = dir + "/c12_tmp.gds";
     std::string res = in_child(
         [&](FILE* o) {
@@ -411,10 +415,12 @@ static void run_gds_path(Out& out, Rng& g, uint64_t max_points, bool robust, con
                 rp->to_polygons(false, 0, outline);
                 cell->robustpath_array.append(rp);
             }
-            ErrorCode e = lib.write_gds(fn.c_str(), max_points, NULL);
+            uint64_t eff = max_points;
+            if (limit_mode && outline.count > 0 && outline[0]->point_array.count > 8) eff = outline[0]->point_array.count - 2 + (uint64_t)limit_mode;
+            ErrorCode e = lib.write_gds(fn.c_str(), eff, NULL);
             ErrorCode e2 = ErrorCode::NoError;
             Library back = read_gds(fn.c_str(), 0, 1e-12, NULL, &e2);
-            fprintf(o, "done %d %d ", (int)e, (int)e2);
+            fprintf(o, "done %d %d %llu ", (int)e, (int)e2, (unsigned long long)eff);
             if (back.cell_array.count == 1) {
                 Array<Polygon*>& pa = back.cell_array[0]->polygon_array;
                 bool tags = true;
@@ -440,6 +446,7 @@ static void run_gds_path(Out& out, Rng& g, uint64_t max_points, bool robust, con
         r.next();
         e1 = (int)r.num();
         e2 = (int)r.num();
+        max_points = (uint64_t)r.num();
         tags = r.next() == "tags-ok";
         DGroup outl = r.group();
         for (auto& p : outl) {  // snap the outline to the database grid, as the writer does
@@ -702,6 +709,15 @@ int main(int argc, char** argv) {
     for (auto& c : load_corpus(argc > 4 ? argv[4] : NULL)) run_case(out, g, c.first, c.second);
     long N = g_thorough ? 2000 : 160;
     for (long i = 0; i < N; i++) gen_case(out, g, argv[3]);
+    // path outlines against a vertex limit at the boundary, both path kinds: one below the outline's vertex count (must be cut), equal
+    // to it and one above (may stay whole)
+    for (int rep = 0; rep < (g_thorough ? 20 : 2); rep++)
+        for (int robust = 0; robust < 2; robust++)
+            for (int mode = 1; mode <= 3; mode++) {
+                g_force_mode = mode;
+                run_gds_path(out, g, 100, robust != 0, argv[3]);
+            }
+    g_force_mode = 0;
     out.close();
     return 0;
 }
